@@ -1215,7 +1215,7 @@ impl ModelData {
         + self.attribute_name_offsets.len() as u32 * size_of::<u32>() as u32
         + self.header.terrain_shadow_mesh_count as u32 * 20
         + self.header.submesh_count as u32 * 16
-        + self.header.terrain_shadow_submesh_count as u32 * 10
+        + self.header.terrain_shadow_submesh_count as u32 * 12
         + self.material_name_offsets.len() as u32 * size_of::<u32>() as u32
         + self.bone_name_offsets.len() as u32 * size_of::<u32>() as u32
         + self.bone_tables.len() as u32 * 132
